@@ -46,6 +46,7 @@ type Result struct {
 	KnownSeen  map[string]int `json:"known_seen,omitempty"`
 	WallS      float64        `json:"wall_s"`
 	Sample     any            `json:"sample,omitempty"`
+	PerBound   []string       `json:"per_bound,omitempty"`
 }
 
 // Scenario is one closed harness: Body is executed once per schedule and must rebuild its state from
@@ -101,8 +102,10 @@ func Explore(i int, sc Scenario, b Budget) *Result {
 			}
 			return true
 		}
+		tb := time.Now()
 		e.Explore(body)
 		_ = lastX
+		res.PerBound = append(res.PerBound, fmt.Sprintf("bound=%d execs=%d pruned=%d states=%d wall=%.1fs capped=%q", bound, e.Execs, e.Pruned, e.States(), time.Since(tb).Seconds(), e.Capped))
 		res.Execs += e.Execs
 		res.Pruned += e.Pruned
 		res.Points += e.Points
@@ -209,7 +212,7 @@ func Merge(r *core.Report, results []*Result) {
 		for _, v := range res.Viols {
 			r.Violate(v.Signature, v.Desc, v)
 		}
-		perScenario = append(perScenario, map[string]any{"name": res.Name, "executions": res.Execs, "pruned": res.Pruned, "states": res.States, "bound_completed": res.BoundDone, "distinct_outcomes": len(res.Outcomes), "max_points": res.MaxPoints, "wall_s": res.WallS, "capped": res.Capped, "best_effort_capped": res.BestEffort})
+		perScenario = append(perScenario, map[string]any{"name": res.Name, "executions": res.Execs, "pruned": res.Pruned, "states": res.States, "bound_completed": res.BoundDone, "distinct_outcomes": len(res.Outcomes), "max_points": res.MaxPoints, "wall_s": res.WallS, "capped": res.Capped, "best_effort_capped": res.BestEffort, "per_bound": res.PerBound})
 		if res.Sample != nil {
 			r.Sample(res.Sample)
 		}
